@@ -31,6 +31,11 @@ static __thread struct mhs {
         void *f_upd, *f_fin;
         int isal;
 } ms[NS];
+#include <stddef.h>
+static const size_t ktotal[] = { offsetof(struct isal_mh_sha1_ctx, total_length), offsetof(struct isal_mh_sha256_ctx, total_length),
+                                 offsetof(struct isal_mh_sha1_murmur3_x64_128_ctx, total_length) };
+static const size_t kpbuf[] = { offsetof(struct isal_mh_sha1_ctx, partial_block_buffer), offsetof(struct isal_mh_sha256_ctx, partial_block_buffer),
+                                offsetof(struct isal_mh_sha1_murmur3_x64_128_ctx, partial_block_buffer) };
 static const char *kname[] = { "mh_sha1", "mh_sha256", "mh_sha1_murmur3_x64_128" };
 static const size_t ksize[] = { sizeof(struct isal_mh_sha1_ctx), sizeof(struct isal_mh_sha256_ctx),
                                 sizeof(struct isal_mh_sha1_murmur3_x64_128_ctx) };
@@ -137,6 +142,15 @@ do_mhupd(const cmd *c)
                 ev_raw("data", sb);
         }
         ev_int("rc", (long long) (int) r);
+        if (!o.fault) {
+                /* implementation-shaped observation (MhCarry): running total and the carried bytes of the public context */
+                uint64_t tl;
+                char sb[64];
+                memcpy(&tl, (uint8_t *) s->ctx.p + ktotal[s->kind], 8);
+                snprintf(sb, sizeof sb, "[%llu,%llu]", (unsigned long long) (tl >> 20), (unsigned long long) (tl & 0xFFFFF));
+                ev_raw("tl", sb);
+                ev_hex("pb", (uint8_t *) s->ctx.p + kpbuf[s->kind], (size_t) (tl % 1024));
+        }
         ev_obs(&o);
         ev_end();
         if (!huge)
@@ -328,6 +342,10 @@ do_rhrun(const cmd *c)
         ev_int("off", o.fault ? -1 : (long long) (*(uint32_t *) offp.p & 0x7fffffff));
         ev_int("match", o.fault ? -1 : match);
         ev_hex("hash", &((struct isal_rh_state2 *) s->st.p)->hash, 8);
+        {       /* implementation-shaped observation: the saved window of the public state */
+                struct isal_rh_state2 *st = (struct isal_rh_state2 *) s->st.p;
+                ev_hex("hist", st->history, o.fault || st->w > ISAL_FINGERPRINT_MAX_WINDOW ? 0 : st->w);
+        }
         ev_obs(&o);
         ev_end();
         gbuf_free(&in);
